@@ -235,7 +235,7 @@ static void cmd_F(char *a)
 		/* which rows (in the decoder's row order) give exactly this record when sliced on their own with the record's service */
 		{
 			const _vbi_service_par *par = find_par(out[i].id);
-			int row, first = 1, c0 = tx.count[0], nacc = 0, acc[MAXL];
+			int row, first = 1, c0 = tx.count[0], nacc = 0, acc[MAXL], dif[MAXL];
 			for (row = 0; valid && par && row < rows; ++row) {
 				int phys = tx.interlaced ? (row < c0 ? 2 * row : 2 * (row - c0) + 1) : row;
 				vbi3_bit_slicer s3; uint8_t b[64];
@@ -247,7 +247,12 @@ static void cmd_F(char *a)
 							       par->cri_frc & ((1U << par->frc_bits) - 1), par->frc_bits,
 							       par->payload, par->bit_rate, (vbi3_modulation) par->modulation)
 				    && vbi3_bit_slicer_slice(&s3, b, sizeof b, img + (size_t) phys * tx.bytes_per_line)) {
-					if (nacc < MAXL) acc[nacc++] = row;	/* accepted as this service at all */
+					if (nacc < MAXL) {	/* accepted as this service at all: row, bytes that differ from the record */
+						unsigned k;
+						acc[nacc] = row; dif[nacc] = 0;
+						for (k = 0; k < pb; ++k) dif[nacc] += b[k] != out[i].data[k];
+						++nacc;
+					}
 					if (!memcmp(b, out[i].data, pb)) {
 						printf("%s%d", first ? "" : ",", row);
 						first = 0;
@@ -255,7 +260,7 @@ static void cmd_F(char *a)
 				}
 			}
 			printf("],\"acc\":[");
-			for (row = 0; row < nacc; ++row) printf("%s%d", row ? "," : "", acc[row]);
+			for (row = 0; row < nacc; ++row) printf("%s[%d,%d]", row ? "," : "", acc[row], dif[row]);
 		}
 		printf("]}");
 	}
